@@ -71,7 +71,7 @@ def main():
                 fv["demo_without_patch_exit"] = base.returncode
                 fv["demo_with_patch_exit"] = mut.returncode
                 fv["still_a_valid_seed"] = bool(base.returncode == 0 and mut.returncode != 0 and "118 passed" in fv["repo_tests_with_patch"])
-                env2 = dict(os.environ, DFOLS_VERIF_REPO=WT, VERIF_NOEVIDENCE="1")
+                env2 = dict(os.environ, DFOLS_VERIF_REPO=WT, VERIF_NOEVIDENCE="1", VERIF_FAST_FAIL="1")
                 c = subprocess.run([os.path.join(VERIF, "check"), prop, "quick"], cwd=VERIF, env=env2, capture_output=True, text=True, timeout=3600)
                 lines = [l for l in c.stdout.splitlines() if l.startswith("VIOLATION")]
                 fv["check_exit"] = c.returncode
